@@ -1,7 +1,511 @@
-//! C04 — harness not built yet.
+//! C04 — dictionary lookup returns exactly the entries that prefix-match the text.
+//!
+//! Dictionaries are compiled by the real `DictBuilder` from generated CSVs, layered with `LexiconSet::append`, and
+//! `LexiconSet::lookup` is run at every byte offset of generated texts; `MorphemeList::lookup` gives the exact-surface
+//! lookups.  The Coq side (Model/LexSet.v `check_case_c04`) (i) runs the verified enumerator `keys_of` on the trie bytes yada
+//! produced and compares with the CSV index (per-dictionary certificate), (ii) evaluates the reader model at the same
+//! offsets and compares with the implementation's answers and with the naive CSV scan.
 use crate::common::*;
+use serde_json::{json, Value};
+use sudachi::analysis::mlist::MorphemeList;
+use sudachi::dic::build::DictBuilder;
+use sudachi::dic::header::Header;
+use sudachi::dic::subset::InfoSubset;
+use sudachi::dic::DictionaryLoader;
 
-pub fn run(_args: &Args) {
-    eprintln!("no harness for C04 yet");
-    std::process::exit(2);
+const POS: [&str; 3] = ["名詞,普通名詞,一般,*,*,*", "助詞,格助詞,*,*,*,*", "動詞,一般,*,*,五段-サ行,終止形-一般"];
+
+#[derive(Clone, Debug)]
+pub struct Row {
+    pub surface: String,
+    pub left: i16,
+}
+
+pub fn hex(b: &[u8]) -> String {
+    let mut s = String::with_capacity(b.len() * 2);
+    for x in b {
+        s.push_str(&format!("{:02x}", x));
+    }
+    s
+}
+
+pub fn matrix() -> Vec<u8> {
+    std::fs::read(format!("{}/sudachi/tests/resources/matrix_10x10.def", repo())).expect("matrix_10x10.def")
+}
+
+fn render(rows: &[Row], rng: &mut Rng) -> String {
+    let mut s = String::new();
+    for r in rows {
+        let (l, rt) = if r.left < 0 { (-1i16, -1i16) } else { (r.left, r.left) };
+        let pos = *rng.pick(&POS);
+        s.push_str(&format!("{},{},{},{},{},{},*,*,*,A,*,*,*,*\n", r.surface, l, rt, rng.range(-500, 9000), r.surface, pos));
+    }
+    s
+}
+
+/// small alphabets with 1-, 2-, 3- and 4-byte characters so that keys share prefixes at byte level too
+const ALPHA: [&str; 14] = ["a", "b", "é", "ä", "あ", "い", "ア", "京", "亰", "東", "𠮟", "𠮷", "\u{10FFFF}", "\u{7f}"];
+
+fn gen_surface(rng: &mut Rng, existing: &[Row]) -> String {
+    let k = rng.below(10);
+    if k < 4 && !existing.is_empty() {
+        // extend an existing key (so it becomes a proper prefix of the new one) or cut one (new key is a prefix)
+        let base = &rng.pick(existing).surface;
+        if rng.chance(1, 2) {
+            let mut s = base.clone();
+            for _ in 0..1 + rng.below(2) {
+                s.push_str(*rng.pick(&ALPHA[..]));
+            }
+            return s;
+        }
+        let n = base.chars().count();
+        if n > 1 {
+            let keep = 1 + rng.below((n - 1) as u64) as usize;
+            return base.chars().take(keep).collect();
+        }
+    }
+    if k < 6 && !existing.is_empty() {
+        return rng.pick(existing).surface.clone(); // homograph
+    }
+    let n = 1 + rng.below(4);
+    let mut s = String::new();
+    // sub-alphabet per key keeps collisions frequent
+    let lo = rng.below(10) as usize;
+    for _ in 0..n {
+        s.push_str(ALPHA[lo + rng.below(4) as usize]);
+    }
+    s
+}
+
+fn gen_rows(rng: &mut Rng, shared: &[Row], shape: u64) -> Vec<Row> {
+    let n = match shape {
+        0 => 1 + rng.below(4),
+        1 => 1 + rng.below(12),
+        _ => 4 + rng.below(22),
+    } as usize;
+    let mut rows: Vec<Row> = vec![];
+    for _ in 0..n {
+        let surface = if !shared.is_empty() && rng.chance(1, 3) {
+            // same or related key as in another layer
+            let pool: Vec<Row> = shared.to_vec();
+            gen_surface(rng, &pool)
+        } else {
+            gen_surface(rng, &rows)
+        };
+        let left = if rng.chance(1, 6) { -1 } else { rng.range(0, 9) as i16 };
+        rows.push(Row { surface, left });
+    }
+    // a lexicon without a single indexed row makes the yada builder assert (`labels.len() > 0`): that panic belongs to the
+    // compiler-totality property (C06), not to lookup; every generated lexicon here keeps at least one indexed row
+    if rows.iter().all(|r| r.left < 0) {
+        rows[0].left = 0;
+    }
+    rows
+}
+
+pub struct Built {
+    pub bytes: Vec<u8>,
+}
+
+pub fn build_system(csv: &str) -> Result<Vec<u8>, String> {
+    let m = matrix();
+    let r = catch(|| -> Result<Vec<u8>, String> {
+        let mut b = DictBuilder::new_system();
+        b.read_conn(&m[..]).map_err(|e| format!("{:?}", e))?;
+        b.read_lexicon(csv.as_bytes()).map_err(|e| format!("{:?}", e))?;
+        b.resolve().map_err(|e| format!("{:?}", e))?;
+        let mut out = vec![];
+        b.compile(&mut out).map_err(|e| format!("{:?}", e))?;
+        Ok(out)
+    });
+    match r {
+        Ok(x) => x,
+        Err(p) => Err(format!("PANIC {}", p)),
+    }
+}
+
+pub fn build_user_bare(sys: &[u8], csv: &str) -> Result<Vec<u8>, String> {
+    let r = catch(|| -> Result<Vec<u8>, String> {
+        let loaded = DictionaryLoader::read_system_dictionary(sys).map_err(|e| format!("{:?}", e))?.to_loaded().ok_or("no grammar")?;
+        let mut b = DictBuilder::new_user(&loaded);
+        b.read_lexicon(csv.as_bytes()).map_err(|e| format!("{:?}", e))?;
+        b.resolve().map_err(|e| format!("{:?}", e))?;
+        let mut out = vec![];
+        b.compile(&mut out).map_err(|e| format!("{:?}", e))?;
+        Ok(out)
+    });
+    match r {
+        Ok(x) => x,
+        Err(p) => Err(format!("PANIC {}", p)),
+    }
+}
+
+/// (trie section, word-id-table section) of a compiled dictionary, located the way Lexicon::parse does
+pub fn sections(bytes: &[u8], system: bool) -> (Vec<u8>, Vec<u8>) {
+    let dl = if system { DictionaryLoader::read_system_dictionary(bytes).unwrap() } else { DictionaryLoader::read_user_dictionary(bytes).unwrap() };
+    let mut off = Header::STORAGE_SIZE;
+    if let Some(g) = &dl.grammar {
+        off += g.storage_size;
+    }
+    let rd = |o: usize| u32::from_le_bytes([bytes[o], bytes[o + 1], bytes[o + 2], bytes[o + 3]]) as usize;
+    let tsz = rd(off);
+    let trie = bytes[off + 4..off + 4 + 4 * tsz].to_vec();
+    off += 4 + 4 * tsz;
+    let wsz = rd(off);
+    let tbl = bytes[off + 4..off + 4 + wsz].to_vec();
+    (trie, tbl)
+}
+
+fn naive(all: &[Vec<Row>], text: &[u8], off: usize) -> Vec<(u32, usize)> {
+    let mut v = vec![];
+    for (d, rows) in all.iter().enumerate() {
+        for (i, r) in rows.iter().enumerate() {
+            if r.left >= 0 && off <= text.len() && text[off..].starts_with(r.surface.as_bytes()) {
+                v.push((((d as u32) << 28) | i as u32, off + r.surface.len()));
+            }
+        }
+    }
+    v.sort();
+    v
+}
+
+fn gen_text(rng: &mut Rng, all: &[Vec<Row>]) -> String {
+    let mut s = String::new();
+    let n = 1 + rng.below(4);
+    for _ in 0..n {
+        if rng.chance(1, 12) {
+            // NUL is a legal character of a text; the double array uses label 0 as its terminator
+            s.push('\u{0}');
+        }
+        if rng.chance(3, 4) {
+            let rows = rng.pick(all);
+            let w = &rng.pick(rows).surface;
+            if rng.chance(1, 10) && w.chars().count() > 1 {
+                // a key with a NUL inserted after its first character
+                let mut it = w.chars();
+                s.push(it.next().unwrap());
+                s.push('\u{0}');
+                s.extend(it);
+            } else {
+                s.push_str(w);
+            }
+        } else {
+            s.push_str(*rng.pick(&ALPHA[..]));
+        }
+        if s.len() > 26 {
+            break;
+        }
+    }
+    s
+}
+
+fn desc(csvs: &[String], texts: &[String], exacts: &[String]) -> Value {
+    json!({"kind": "c04", "csvs": csvs, "texts": texts, "exacts": exacts})
+}
+
+fn parse_rows(csv: &str) -> Vec<Row> {
+    csv.lines()
+        .filter(|l| !l.is_empty())
+        .map(|l| {
+            let c: Vec<&str> = l.split(',').collect();
+            Row { surface: c[0].to_string(), left: c[1].parse().unwrap() }
+        })
+        .collect()
+}
+
+/// one case: a stack of dictionaries given by their CSV texts (first = system), texts, exact queries
+fn run_case(sink: &mut Sink, csvs: &[String], texts: &[String], exacts: &[String], expect_ok: bool, verbose: bool) {
+    let all: Vec<Vec<Row>> = csvs.iter().map(|c| parse_rows(c)).collect();
+    let d = desc(csvs, texts, exacts);
+    // compile
+    let mut bins: Vec<Vec<u8>> = vec![];
+    for (i, csv) in csvs.iter().enumerate() {
+        let r = if i == 0 { build_system(csv) } else { build_user_bare(&bins[0], csv) };
+        match r {
+            Ok(b) => bins.push(b),
+            Err(e) => {
+                let id = sink.case_rust_only(d.clone(), false);
+                if e.starts_with("PANIC") {
+                    sink.fail(id, &format!("dictionary builder panicked on dictionary {}: {}", i, e), "");
+                } else if expect_ok {
+                    sink.fail(id, &format!("well-formed lexicon {} rejected by the builder: {}", i, e), "");
+                } else {
+                    sink.tag("compile_rejected_malformed");
+                }
+                if verbose {
+                    println!("builder: {}", e);
+                }
+                return;
+            }
+        }
+    }
+    // layer
+    let sysl = DictionaryLoader::read_system_dictionary(&bins[0]).unwrap();
+    let mut loaded = sysl.to_loaded().unwrap();
+    let mut too_many = false;
+    for b in bins.iter().skip(1) {
+        let ul = DictionaryLoader::read_user_dictionary(b).unwrap();
+        let npos = loaded.grammar.pos_list.len();
+        if loaded.lexicon_set.append(ul.lexicon, npos).is_err() {
+            too_many = true;
+            break;
+        }
+    }
+    if too_many {
+        let id = sink.case_rust_only(d.clone(), false);
+        if csvs.len() <= 15 {
+            sink.fail(id, &format!("a stack of {} dictionaries was rejected", csvs.len()), "");
+        } else {
+            sink.tag("sixteenth_layer_rejected");
+        }
+        return;
+    }
+    if csvs.len() > 15 {
+        let id = sink.case_rust_only(d.clone(), false);
+        sink.fail(id, "a 16th dictionary was accepted by LexiconSet::append", "");
+        return;
+    }
+    // lookups at every byte offset
+    let mut bad: Option<String> = None;
+    let mut qterms = vec![];
+    let mut total_hits = 0usize;
+    for t in texts {
+        let tb = t.as_bytes();
+        let mut outs = vec![];
+        for off in 0..=tb.len() {
+            let r = catch(|| loaded.lexicon_set.lookup(tb, off).map(|e| (e.word_id.as_raw(), e.end)).collect::<Vec<_>>());
+            match r {
+                Ok(v) => {
+                    let mut s = v.clone();
+                    s.sort();
+                    let nv = naive(&all, tb, off);
+                    if s != nv && bad.is_none() {
+                        bad = Some(format!("text {:?} offset {}: lookup gives {:?}, CSV scan gives {:?} ((dic<<28|word), end)", t, off, s, nv));
+                    }
+                    if verbose {
+                        println!("impl  text={:?} off={} -> {:?}", t, off, v);
+                        println!("naive text={:?} off={} -> {:?}", t, off, nv);
+                    }
+                    total_hits += v.len();
+                    outs.push(clist(v.iter().map(|(w, e)| cpair(&cn(*w), &cnu(*e)))));
+                }
+                Err(p) => {
+                    if bad.is_none() {
+                        bad = Some(format!("text {:?} offset {}: lookup panicked: {}", t, off, p));
+                    }
+                    outs.push("[]".to_string());
+                }
+            }
+        }
+        qterms.push(format!("(\"{}\"%string, {})", hex(tb), clist(outs)));
+    }
+    let mut eterms = vec![];
+    for q in exacts {
+        let r = catch(|| {
+            let mut ml = MorphemeList::empty(&loaded);
+            let n = ml.lookup(q, InfoSubset::empty()).map_err(|e| format!("{:?}", e))?;
+            let ids: Vec<u32> = (0..ml.len()).map(|i| ml.get(i).word_id().as_raw()).collect();
+            if n != ids.len() {
+                return Err(format!("lookup returned {} but the list holds {}", n, ids.len()));
+            }
+            Ok::<_, String>(ids)
+        });
+        match r {
+            Ok(Ok(ids)) => {
+                let mut s = ids.clone();
+                s.sort();
+                let mut nv: Vec<u32> = vec![];
+                for (d, rows) in all.iter().enumerate() {
+                    for (i, r) in rows.iter().enumerate() {
+                        if r.left >= 0 && r.surface == *q {
+                            nv.push(((d as u32) << 28) | i as u32);
+                        }
+                    }
+                }
+                nv.sort();
+                if s != nv && bad.is_none() {
+                    bad = Some(format!("exact lookup of {:?} gives {:?}, CSV has {:?}", q, s, nv));
+                }
+                if verbose {
+                    println!("impl  exact {:?} -> {:?}; CSV {:?}", q, ids, nv);
+                }
+                total_hits += ids.len();
+                eterms.push(format!("(\"{}\"%string, {})", hex(q.as_bytes()), clist(ids.iter().map(|w| cn(*w)))));
+            }
+            Ok(Err(e)) => {
+                if bad.is_none() {
+                    bad = Some(format!("exact lookup of {:?} failed: {}", q, e));
+                }
+            }
+            Err(p) => {
+                if bad.is_none() {
+                    bad = Some(format!("exact lookup of {:?} panicked: {}", q, p));
+                }
+            }
+        }
+    }
+    let mut dterms = vec![];
+    let mut fuel = 1usize;
+    for (i, b) in bins.iter().enumerate() {
+        let (trie, tbl) = sections(b, i == 0);
+        let rows = clist(all[i].iter().map(|r| {
+            fuel = fuel.max(r.surface.len() + 1);
+            format!("(\"{}\"%string, {})", hex(r.surface.as_bytes()), cz(r.left as i64))
+        }));
+        dterms.push(format!("(\"{}\"%string, \"{}\"%string, {})", hex(&trie), hex(&tbl), rows));
+        sink.tag(&format!("trie_units={}", trie.len() / 4 / 256 * 256));
+    }
+    let term = format!("check_case_c04 {} {}%nat {} {}", clist(dterms), fuel, clist(qterms), clist(eterms));
+    // shape tags
+    sink.tag(&format!("layers={}", csvs.len()));
+    let nrows: usize = all.iter().map(|r| r.len()).sum();
+    sink.tag(&format!("rows={}", match nrows { 0..=5 => "1-5", 6..=20 => "6-20", 21..=60 => "21-60", _ => "61+" }));
+    let mut max_homo = 0;
+    let mut has_prefix_pair = false;
+    let mut has_astral = false;
+    let mut has_nonindexed = false;
+    for rows in &all {
+        for r in rows {
+            let c = rows.iter().filter(|x| x.surface == r.surface && x.left >= 0).count();
+            max_homo = max_homo.max(c);
+            if rows.iter().any(|x| x.surface != r.surface && x.surface.starts_with(&r.surface)) {
+                has_prefix_pair = true;
+            }
+            if r.surface.chars().any(|c| c as u32 > 0xFFFF) {
+                has_astral = true;
+            }
+            if r.left < 0 {
+                has_nonindexed = true;
+            }
+        }
+    }
+    sink.tag(&format!("max_homographs={}", match max_homo { 0..=1 => "1", 2..=5 => "2-5", 6..=126 => "6-126", _ => "127" }));
+    if has_prefix_pair {
+        sink.tag("key_is_prefix_of_other");
+    }
+    if has_astral {
+        sink.tag("astral_chars");
+    }
+    if has_nonindexed {
+        sink.tag("non_indexed_rows");
+    }
+    if texts.iter().any(|t| t.contains('\u{0}')) {
+        sink.tag("nul_in_text");
+    }
+    let nontrivial = total_hits >= 2 && (has_prefix_pair || max_homo > 1 || csvs.len() > 1);
+    let id = sink.case(term, d, nontrivial);
+    if let Some(b) = bad {
+        if verbose {
+            println!("FAIL: {}", b);
+        }
+        sink.fail(id, &b, "");
+    }
+}
+
+fn gen_case(rng: &mut Rng, layers: usize, shape: u64) -> (Vec<String>, Vec<String>, Vec<String>) {
+    let mut all: Vec<Vec<Row>> = vec![];
+    let mut csvs = vec![];
+    for l in 0..layers {
+        let shared: Vec<Row> = if l > 0 { all[rng.below(l as u64) as usize].clone() } else { vec![] };
+        let rows = gen_rows(rng, &shared, if layers > 6 { 0 } else { shape });
+        csvs.push(render(&rows, rng));
+        all.push(rows);
+    }
+    let nt = if layers > 6 { 2 } else { 3 };
+    let texts: Vec<String> = (0..nt).map(|_| gen_text(rng, &all)).collect();
+    let mut exacts: Vec<String> = vec![];
+    for _ in 0..(4 + rng.below(5)) {
+        let rows = rng.pick(&all);
+        let s = rng.pick(rows).surface.clone();
+        match rng.below(5) {
+            0 => {
+                // a proper prefix / extension of a key: usually not a key itself
+                let n = s.chars().count();
+                if n > 1 {
+                    exacts.push(s.chars().take(n - 1).collect());
+                } else {
+                    exacts.push(format!("{}{}", s, *rng.pick(&ALPHA[..])));
+                }
+            }
+            _ => exacts.push(s),
+        }
+    }
+    exacts.sort();
+    exacts.dedup();
+    (csvs, texts, exacts)
+}
+
+pub fn run(args: &Args) {
+    let mut sink = Sink::new("C04", &args.out, &["Model.LexSet"], args.seed, &args.tier);
+    sink.shard_size = 12;
+    sink.rule("stacks of 1..15 dictionaries compiled by DictBuilder from generated CSVs (keys over a 14-letter alphabet of 1/2/3/4-byte characters; keys extended/cut from other keys so that keys are prefixes of others; homographs up to 127; keys shared between layers; left_id=-1 rows) x texts concatenated from keys and letters, LexiconSet::lookup at EVERY byte offset (incl. inside characters) x exact-surface MorphemeList::lookup of keys / near-keys; each case also certifies every trie with the verified enumerator; non-trivial = at least 2 entries returned and (a key is a proper prefix of another, or homographs, or more than one layer); distinct by generated Coq term");
+    if let Some(p) = &args.replay {
+        let v: Value = serde_json::from_str(&std::fs::read_to_string(p).unwrap()).unwrap();
+        let case = &v["case"];
+        let gs = |k: &str| -> Vec<String> { case[k].as_array().map(|a| a.iter().map(|x| x.as_str().unwrap().to_string()).collect()).unwrap_or_default() };
+        let (csvs, texts, exacts) = (gs("csvs"), gs("texts"), gs("exacts"));
+        for (i, c) in csvs.iter().enumerate() {
+            println!("dictionary {} CSV:\n{}", i, c);
+        }
+        run_case(&mut sink, &csvs, &texts, &exacts, csvs.len() <= 15, true);
+        sink.finish();
+        return;
+    }
+    let mut rng = Rng::new(args.seed);
+    // corpus: the shipped test lexicon with its two user lexicons
+    {
+        let rd = |f: &str| std::fs::read_to_string(format!("{}/sudachi/tests/resources/{}", repo(), f)).unwrap();
+        let mut csvs = vec![rd("lex.csv"), rd("user1.csv"), rd("user2.csv")];
+        for c in csvs.iter_mut() {
+            if !c.ends_with('\n') {
+                c.push('\n');
+            }
+        }
+        let texts = vec!["東京都に行った".to_string(), "ぴらる東京府".to_string(), "京都".to_string()];
+        let exacts = vec!["東京".to_string(), "東京都".to_string(), "行く".to_string(), "ぴさる".to_string(), "すだち".to_string(), "かぼす".to_string(), "に".to_string()];
+        run_case(&mut sink, &csvs, &texts, &exacts, true, false);
+        sink.tag("corpus_shipped_lexicons");
+    }
+    // directed: NUL bytes in the text (minimised from the defect fixed in the repository: "a\0b" matched key "ab")
+    {
+        let rows = vec![Row { surface: "ab".into(), left: 1 }, Row { surface: "abc".into(), left: 1 }, Row { surface: "b".into(), left: 2 }];
+        let csv = render(&rows, &mut rng);
+        let texts: Vec<String> = ["a\u{0}b", "\u{0}ab", "ab\u{0}c", "a\u{0}\u{0}bc"].iter().map(|s| s.to_string()).collect();
+        run_case(&mut sink, &[csv], &texts, &["a\u{0}b".to_string(), "ab".to_string(), "\u{0}".to_string()], true, false);
+        sink.tag("directed_nul_in_text");
+    }
+    // directed: 127 homographs (the maximum a table group can hold), and 128 (must be rejected, not truncated)
+    for n in [127usize, 128] {
+        let mut rows = vec![Row { surface: "あ".into(), left: 1 }];
+        for _ in 0..n {
+            rows.push(Row { surface: "あい".into(), left: 2 });
+        }
+        rows.push(Row { surface: "あいa".into(), left: 3 });
+        let csv = render(&rows, &mut rng);
+        run_case(&mut sink, &[csv.clone()], &["あいa".to_string()], &["あい".to_string()], n <= 127, false);
+        if n == 127 {
+            let sys = render(&[Row { surface: "あい".into(), left: 1 }], &mut rng);
+            run_case(&mut sink, &[sys, csv], &["あいa".to_string()], &["あい".to_string()], true, false);
+        }
+        sink.tag("directed_homograph_limit");
+    }
+    // directed: 15 layers accepted, 16 rejected
+    for n in [15usize, 16] {
+        let (csvs, texts, exacts) = gen_case(&mut rng, n, 0);
+        run_case(&mut sink, &csvs, &texts, &exacts, true, false);
+    }
+    let n = args.n(400, 6000);
+    for _ in 0..n {
+        let layers = match rng.below(20) {
+            0..=7 => 1,
+            8..=12 => 2,
+            13..=15 => 3,
+            16..=17 => 4 + rng.below(4) as usize,
+            _ => 8 + rng.below(8) as usize,
+        };
+        let shape = rng.below(3);
+        let (csvs, texts, exacts) = gen_case(&mut rng, layers, shape);
+        run_case(&mut sink, &csvs, &texts, &exacts, true, false);
+    }
+    sink.finish();
 }
